@@ -26,6 +26,9 @@ def units(tier, seed):
         u["seed"], u["tier"] = seed, tier
         if tier == "quick" and u["kind"] == "struct":
             u["subst_alphabet"] = (0x00, 0x01, 0x7F, 0x80, 0xFF)
+        if tier == "thorough" and u["kind"] != "struct":
+            u["value_valid"] = False
+            u["subst_base_only"] = True  # frames: all ten substitute bytes on the default base case only
         if tier == "quick" and u["kind"] != "struct":
             u["value_valid"] = False  # quick: frames without the in-range substitutions (C04 runs them in strict mode)
             u["subst_alphabet"] = (0x00, 0xFF)  # quick: frames get the two extreme substitute bytes, structures all ten
